@@ -22,7 +22,23 @@ func (c *Compiler) declType(s *Sym) {
 		return
 	}
 	srcNamed := obj.Type().(*types.Named)
-	decl := c.Pkg.NewType(ts.Name.Name)
+	var decl *gogen.TypeDecl
+	if s.genDecl != nil {
+		// grouped declaration: one TypeDefs block for all specs of the group, opened in
+		// the file that is current when the first of them is declared
+		if c.typeGroups == nil {
+			c.typeGroups = map[*ast.GenDecl]*gogen.TypeDefs{}
+		}
+		defs := c.typeGroups[s.genDecl]
+		if defs == nil {
+			defs = c.Pkg.NewTypeDefs()
+			c.typeGroups[s.genDecl] = defs
+			c.groupOrder = append(c.groupOrder, defs)
+		}
+		decl = defs.NewType(ts.Name.Name)
+	} else {
+		decl = c.Pkg.NewType(ts.Name.Name)
+	}
 	if d := docOf(ts.Doc); d != nil {
 		decl.SetComments(c.Pkg, d)
 	}
